@@ -20,8 +20,15 @@ namespace detail {
     {
         if constexpr (::std::is_pointer_v<T>) {
             return vs::S().id_of((const void*)v);
-        } else {
+        } else if constexpr (::std::is_arithmetic_v<T> || ::std::is_enum_v<T>) {
             return (long)v;
+        } else {
+            // a value type the library did not use when the shim was written (e.g. std::thread::id):
+            // keep the driver compiling; the logged value is a small hash of the object representation
+            unsigned long h = 1469598103934665603UL;
+            const unsigned char* b = reinterpret_cast<const unsigned char*>(&v);
+            for (::std::size_t i = 0; i < sizeof(T); ++i) h = (h ^ b[i]) * 1099511628211UL;
+            return (long)(h & 0xffff);
         }
     }
     template<class T>
